@@ -1,0 +1,16 @@
+//go:build verif
+
+// Hooks for the deterministic-simulation harness in /verif. This file is only
+// compiled with -tags verif. The yield points are inserted at check time (see
+// /verif/tools/instrument.py); with the hook nil they do nothing.
+
+package mitm
+
+// VerifYieldHook, when non-nil, is called at named yield points inside cert().
+var VerifYieldHook func(site string)
+
+func verifYield(site string) {
+	if h := VerifYieldHook; h != nil {
+		h(site)
+	}
+}
